@@ -370,6 +370,31 @@ def make_tomb_shrink_script(rng, name, kind=None):
         lines += ["tlen", "tcapacity", "tallocsize", rng.choice(["tshrinktofit", "tshrinktofit", f"tshrinkto {rng.choice([0, keepn, keepn + 1])}"]), "tcapacity", "tallocsize", "titer"]
     return f"=== {name} plan=seq nkeys=120\n" + "\n".join(lines) + "\n"
 
+def make_spare_capacity_script(rng, name, kind=None):
+    """C08 deterministically: a table filled to exact capacity under identity-like hashes (one run of
+    full buckets longer than a group), a clustered block removed from inside that run (removed-slot
+    markers: the spare room does NOT come back), then capacity / len and a handful of absent keys
+    inserted: an insertion may touch the allocator only when the collection's own capacity() - len()
+    was 0 just before it."""
+    kind = kind or rng.choice(["table-plain", "table-drop", "table-6"])
+    lines = [f"kind {kind}"] + [f"hash {k} {plan_hash('seq', k, rng, 0)}" for k in range(140)]
+    st = 0
+    for n in [28, 56, 112]:
+        lines += ["tdrop", f"treserve {n}"]
+        for k in range(n):
+            st += 1
+            lines.append(f"tinsertunique {k} {st} {k}")
+        a = rng.choice([4, 8, 10]); w = rng.choice([3, 4, 6])
+        for k in range(a, a + w):
+            lines.append(f"tfindentryremove {k} id {k}")
+        lines += ["tlen", "tcapacity", "tallocsize"]
+        for j in range(w + 2):
+            st += 1
+            lines.append(f"tinsertunique {120 + j} {st} {j}")
+            lines += ["tcapacity"]
+        lines += ["tlen", "tallocsize", "titer"]
+    return f"=== {name} plan=seq nkeys=140\n" + "\n".join(lines) + "\n"
+
 def make_chain_extract_script(rng, name, kind=None):
     """C10 deterministically: one collision chain longer than a group in a 32-bucket table, two removals
     (removed-slot markers, len() <= group width), then extract_if / retain taking an element from the
@@ -402,6 +427,10 @@ def make_zst_removal_script(rng, name, kind):
         for k in range(n):
             st += 1
             lines.append(f"tinsertunique {k} {st} 0")
+        if n in (12, 28):
+            # single removals through find_entry(..).remove(): Bucket -> index -> control byte
+            for k in (1, n - 2):
+                lines.append(f"tfindentryremove {k} id {0 if kind.startswith('table-zst') else k}")
         lines += ["tlen", "tclone", "tlen", op, "tlen", "titer", "tcapacity", "tclone"]
         for k in range(min(n, 4)):
             lines.append(f"tfind {k} id {k}")
